@@ -51,6 +51,7 @@ type Frame struct {
 	lets     map[string]Binding
 	topProps []string
 	atExit   bool
+	loopGlobalCells map[string][]*Term // cells of package-level variables changed by callees of the loop being entered
 	callStates map[string]*State
 	callArgs   map[string][]Binding // arguments of the last call of each callee with a contract
 	callRes    map[string][]Binding // its results
@@ -62,6 +63,8 @@ type Mode struct {
 	Safety     bool // emit safety obligations instead of assuming no-panic
 	Concurrent bool // monitor model: havoc guarded fields at Lock
 	Race       bool // apply the contract's interference clauses at lock acquisitions
+	Disc       bool // lock-discipline sweep (C17): in-repository calls are not inlined, only the lock state is tracked
+	disc       *discInfo
 	Props      map[string]bool
 }
 
@@ -404,7 +407,10 @@ func (fr *Frame) enterLoop(li *loopInfo, st *State, phis []*ssa.Phi, phiVal func
 	}
 	fr.override = nil
 	// havoc: phis and modified components
+	fr.loopGlobalCells = nil
 	mods := fr.loopModifies(li, st)
+	globalCells := fr.loopGlobalCells
+	fr.loopGlobalCells = nil
 	vc.comment(fmt.Sprintf("loop %d of %s havocs %v", li.ordinal, shortFn(fr.fn), mods))
 	if os.Getenv("GOVC_DEBUG") != "" {
 		fmt.Fprintf(os.Stderr, "loop %d of %s havocs %v\n", li.ordinal, shortFn(fr.fn), mods)
@@ -415,6 +421,17 @@ func (fr *Frame) enterLoop(li *loopInfo, st *State, phis []*ssa.Phi, phiVal func
 	for _, k := range mods {
 		vc.comp(st, k, vc.compSort[k])
 		vc.havoc(st, k)
+	}
+	for _, k := range sortedKeysT(globalCells) {
+		if containsStr(mods, k) {
+			continue // the whole component is arbitrary already
+		}
+		h := vc.comp(st, k, vc.compSort[k])
+		for _, a := range globalCells[k] {
+			es := strings.TrimSuffix(strings.TrimPrefix(vc.compSort[k], "(Array Int "), ")")
+			h = mkStore(h, a, vc.fresh("gc", es))
+		}
+		vc.setComp(st, k, vc.compSort[k], vc.name("gch", vc.compSort[k], h))
 	}
 	// watermark only grows
 	if containsStr(mods, "wm") {
@@ -437,9 +454,13 @@ func (fr *Frame) enterLoop(li *loopInfo, st *State, phis []*ssa.Phi, phiVal func
 		g := fr.evalAssume(c, st, li)
 		vc.assume(st.guard, g)
 	}
+	if fr.mode != nil && fr.mode.Disc && containsStr(mods, "held") {
+		// discipline sweep: the lock set at the loop head is the one the loop started with (checked at every back edge)
+		vc.assume(st.guard, mkEq(vc.comp(st, "held", "(Array Int Bool)"), vc.comp(li.pre, "held", "(Array Int Bool)")))
+	}
 	// automatic accumulator candidates (Houdini): a slice-typed loop variable is nil or was allocated
 	// after function entry. Checked on entry (with the entry values) and at every back edge.
-	if fr.depth == 0 && fr.old != nil {
+	if fr.depth == 0 && fr.old != nil && !(fr.mode != nil && fr.mode.Disc) {
 		for _, p := range phis {
 			if _, ok := p.Type().Underlying().(*types.Slice); !ok {
 				continue
@@ -458,7 +479,7 @@ func (fr *Frame) enterLoop(li *loopInfo, st *State, phis []*ssa.Phi, phiVal func
 	}
 	// automatic frame candidates (Houdini): memory that existed before the loop (or at function entry)
 	// is not written by the loop. Each assumed candidate is checked at every back edge.
-	if fr.depth == 0 {
+	if fr.depth == 0 && !(fr.mode != nil && fr.mode.Disc) {
 		for _, k := range mods {
 			if !strings.HasPrefix(k, "H:") {
 				continue
@@ -1179,7 +1200,14 @@ func (fr *Frame) closeLoop(li *loopInfo, from *ssa.BasicBlock, st *State) {
 		g := fr.evalClause(c, st, li)
 		vc.oblige("inv-pres", fr.oblName("inv-pres", c, li)+edge, c.Props, st.guard, g, pos, c.Src)
 	}
-	if fr.depth == 0 {
+	if fr.mode != nil && fr.mode.Disc && containsStr(li.mods, "held") && li.pre != nil {
+		// discipline sweep: every iteration releases what it acquires
+		h0, h1 := vc.comp(li.pre, "held", "(Array Int Bool)"), vc.comp(st, "held", "(Array Int Bool)")
+		if !same(h0, h1) {
+			vc.oblige("lockbal", fmt.Sprintf("lockbal@loop%d:%s%s", li.ordinal, shortFn(fr.topFn()), edge), []string{"C17"}, st.guard, mkEq(h1, h0), pos, "a loop iteration ends holding a different set of mutexes than the loop started with")
+		}
+	}
+	if fr.depth == 0 && !(fr.mode != nil && fr.mode.Disc) {
 		for _, k := range li.mods {
 			if !strings.HasPrefix(k, "H:") {
 				continue
@@ -1832,4 +1860,13 @@ func mentionsTypeParam(t types.Type) bool {
 		}
 	}
 	return false
+}
+
+func sortedKeysT(m map[string][]*Term) []string {
+	var ks []string
+	for k := range m {
+		ks = append(ks, k)
+	}
+	sort.Strings(ks)
+	return ks
 }
